@@ -25,7 +25,7 @@ TEXT = {
          "Networks with the hard naming conventions are rendered through API, CLI and the Enzo patch; macros are compiled and printed by name, the Python constants modules are executed, the [summary] table and A_Table are parsed; bijectivity, identifier legality and agreement of names/order/counts are checked, and the patch must leave the network's aliases untouched; the patch is also rendered by a second `naunet render --patch enzo` process under another string-hash seed and its tables are compared with the project's macros.",
          "identifier legality = C identifier and not a Python keyword; orders are compared for mutual agreement, not recomputed"),
  "C10": ("compiler and linker diagnostics as events over a configuration grid, plus one executed call per entry point under sanitizers",
-         "A grid of (formats, dust model, back-end, shielding, thermal, network variants) is rendered; every emitted unit is compiled by clang-14 with sanitizers and by g++ -fsyntax-only against API shims, linked with the driver, and EvalRates/Fex/Jac/Renorm are called once. Weakest fit of the family: the deciding observation is a compiler's.",
+         "A grid of (formats, dust model, back-end incl. the cusparse method under CUDA emulation, shielding, thermal, network variants) is rendered; every emitted unit is compiled by clang-14 with sanitizers and by g++ -fsyntax-only against API shims, linked with the driver, and EvalRates/Fex/Jac/Renorm are called once. Weakest fit of the family: the deciding observation is a compiler's.",
          "shim headers stand in for SUNDIALS/Boost; refusals (exceptions at generation) are counted, not judged"),
  "C11": ("runtime monitoring: compiled grain rates vs independent HH93/RR07 formulae",
          "Leeds/UCLCHEM grain reactions are rendered under each dust model and the compiled EvalRates is compared, for randomised grain parameters and mantle abundances incl. zero, with formulae re-implemented from the model papers that take constants, eb_<alias> and mantle density from the compiled library; unsupported requests must raise; a binding-energy override after a first rendering must show in the next one.",
